@@ -13,6 +13,13 @@ var ParseVector = gocvss20.ParseVector
 
 const Header = ""
 
+
+type ErrInvalidMetric = gocvss20.ErrInvalidMetric
+
+var ErrInvalidMetricValue = gocvss20.ErrInvalidMetricValue
+var ErrTooShortVector = gocvss20.ErrTooShortVector
+var ErrInvalidMetricOrder = gocvss20.ErrInvalidMetricOrder
+
 type metric struct {
 	abv  string
 	vals []string
